@@ -72,8 +72,10 @@ def gen_world(rng, i, tier):
     # the caller's callback may itself read a configuration through the library (an allow-list) before it answers
     w["nested"] = rng.chance(0.25)
     w["repeat_under_budget"] = rng.chance(0.12)
-    # the read runs on a loader thread; the caller that joined it asks for the location (and goes on) on the main thread
-    w["loader_thread"] = (not w["repeat_under_budget"]) and rng.chance(0.12)
+    # (a read on a loader thread with the question for the location asked by the thread that joined it was tried in
+    #  round 19 and withdrawn: C13 does not say that the location may be asked from another thread, and a per-thread
+    #  location is a legitimate way to meet C18 - see DESIGN.md 12.5.  The plan builder keeps the mechanism.)
+    w["loader_thread"] = False
     # earlier reads of the same process: other files, other delimiter classes (the arguments live in reused buffers)
     w["stale"] = rng.pick([[], ["good"], ["bad"], ["good", "bad"], ["bad", "good"], ["good:blank"], ["good:mixed", "bad"], ["good:none"], ["bad", "good:blank"]])
     return w
